@@ -11,6 +11,8 @@ VARIABLE s
 Init == s = <<>>
 Next == Len(s) < MaxLen /\ \E c \in Alphabet : s' = Append(s, c)
 Spec == Init /\ [][Next]_s
+NextSim == Len(s) < MaxLen /\ s' = Append(s, RandomElement(Alphabet))
+SpecSim == Init /\ [][NextSim]_s
 
 NormalFormSafe == MtSafe(s, MtExpected(s)) /\ MediatypeOK(s, MtExpected(s))
 NormalFormFixed == MtExpected(MtExpected(s)) = MtExpected(s)
